@@ -823,6 +823,16 @@ impl LinkRelay<OutputHandle> {
         }
     }
 
+    /// The outcomes of the unsettled deliveries of a sending link can no longer arrive: fail
+    /// the futures that wait for them
+    pub(crate) fn abandon_outcome_waiters(&self) {
+        if let LinkRelay::Sender { unsettled, .. } = self {
+            if let Some(map) = unsettled.write().as_mut() {
+                map.values_mut().for_each(|message| message.abandon_waiter());
+            }
+        }
+    }
+
     /// This is cancel safe because it only .await on sending over `tokio::mpsc::Sender`
     pub async fn on_incoming_detach(
         &mut self,
